@@ -111,8 +111,44 @@ def shapes():
   def wrapped(*args, **kw):   # an ordinary decorator between gin and the function (carries __wrapped__)
     return _inner(*args, **kw)
 
+  def _shared_init(self, a, b=2):
+    self.a, self.b = a, b
+
+  def _shared_new(cls, a, b=2):
+    self = object.__new__(cls)
+    self.a, self.b = a, b
+    return self
+
+  class InitAlias:
+    """doc init alias"""
+    __init__ = _shared_init       # the constructor is another function under the name __init__
+
+  class NewAlias:
+    """doc new alias"""
+    __new__ = _shared_new
+
+  class Call:
+    """doc call"""
+
+    def __call__(self, a, b=2):
+      return ('fn', a, b)
+
+    def meth(self, a, b=2):
+      return ('fn', a, b)
+
+  class FalsyCall(Call):
+    """doc falsy"""
+    __name__ = 'c13_falsy_callable'     # registered in the direct form `gin.register(obj)`: the name comes from the object
+
+    def __len__(self):
+      return 0
+
   return {'fn': fn, 'wrapped_fn': wrapped, 'builtin': max, 'init': WithInit, 'new': WithNew, 'both': WithBoth, 'neither': Neither,
-          'meta': WithMeta, 'slots': Slotted, 'namedtuple': NT, 'abc': Concrete}
+          'meta': WithMeta, 'slots': Slotted, 'namedtuple': NT, 'abc': Concrete, 'init_alias': InitAlias, 'new_alias': NewAlias,
+          'callable_obj': Call(), 'falsy_callable': FalsyCall(), 'bound_method': Call().meth}
+
+
+FN_LIKE = ('fn', 'wrapped_fn', 'callable_obj', 'falsy_callable', 'bound_method')
 
 
 PICKLE_SRC = '''
@@ -247,7 +283,17 @@ def run_shape(case):
   before = dict(vars(orig)) if is_class else None
   name = 'c13_' + shape
   try:
-    if api == 'configurable':
+    if shape == 'falsy_callable':
+      # the direct forms (the object itself is the argument; name and module are taken from it)
+      if api == 'configurable':
+        returned = gin.configurable(orig)
+      elif api == 'register':
+        r = gin.register(orig)
+        facts['register_returns_original'] = r is orig
+        returned = gin.get_configurable(orig)
+      else:
+        returned = gin.external_configurable(orig)
+    elif api == 'configurable':
       if not is_class or shape in ('namedtuple', 'pickle_nt', 'builtin'):
         if shape == 'builtin':
           returned = gin.external_configurable(orig, name=name, module='c13')
@@ -264,10 +310,13 @@ def run_shape(case):
   except Exception as e:  # pylint: disable=broad-except
     return {'error': f'{type(e).__name__}: {e}'[:200]}
   param = 'b' if shape not in ('builtin', 'neither') else None
-  if param:
-    gin.bind_parameter(f'c13.{name}.{param}', 99)
-    gin.bind_parameter(f'sc/c13.{name}.{param}', 77)
-  cfgd = gin.get_configurable(f'sc/c13.{name}') if scoped else (returned if api != 'register' else gin.get_configurable(orig))
+  try:
+    if param:
+      gin.bind_parameter(f'c13.{name}.{param}', 99)
+      gin.bind_parameter(f'sc/c13.{name}.{param}', 77)
+    cfgd = gin.get_configurable(f'sc/c13.{name}') if scoped else (returned if api != 'register' else gin.get_configurable(orig))
+  except Exception as e:  # pylint: disable=broad-except
+    return dict(facts, error=f'the registered object cannot be configured / fetched by name: {type(e).__name__}: {e}'[:200])
   want_b = 77 if scoped else 99
   args = (1,) if shape not in ('builtin', 'neither') else ((3, 5) if shape == 'builtin' else ())
   # direct calls to the original receive no injected values (register / external_configurable)
@@ -275,17 +324,26 @@ def run_shape(case):
     try:
       d = orig(*args)
       facts['direct_untouched'] = ((getattr(d, 'b', None) == 2) if is_class and param
-                                   else (d == ('fn', 1, 2) if shape in ('fn', 'wrapped_fn') else True))
+                                   else (d == ('fn', 1, 2) if shape in FN_LIKE else True))
     except Exception as e:  # pylint: disable=broad-except
       facts['direct_untouched'] = f'raised {type(e).__name__}'
   try:
     c = cfgd(*args)
   except Exception as e:  # pylint: disable=broad-except
     return dict(facts, error=f'registry call: {type(e).__name__}: {e}'[:200])
-  if shape in ('fn', 'wrapped_fn'):
+  if shape in FN_LIKE:
     facts['injected'] = c == ('fn', 1, want_b)
   elif param:
     facts['injected'] = getattr(c, 'b', None) == want_b
+  if param and shape != 'wrapped_fn':
+    # a value the caller passes positionally for the bound parameter wins (the names of positional parameters are the
+    # callable's own: no `self` for a bound method or a callable object). Behind an ordinary decorator the names of
+    # positional parameters are not visible: see DESIGN, findings.
+    try:
+      c2 = cfgd(1, 5)
+      facts['caller_wins'] = (c2 == ('fn', 1, 5)) if shape in FN_LIKE else (getattr(c2, 'b', None) == 5)
+    except Exception as e:  # pylint: disable=broad-except
+      facts['caller_wins'] = f'raised {type(e).__name__}: {e}'[:120]
   if is_class:
     has_overrides = shape == 'with_method' and api in ('register', 'external')
     facts['isinstance'] = isinstance(c, orig)
@@ -433,7 +491,7 @@ def oracle(case, impl):
   for k in ('register_returns_original', 'direct_untouched', 'injected', 'isinstance', 'issubclass', 'name_doc_module',
             'class_dict_unchanged', 'pickles', 'meta_ran', 'name_doc_sig', 'equal_but_distinct_rejected',
             'method_via_function_object', 'duplicate_rejected', 'registry_unchanged',
-            'first_still_registered'):
+            'first_still_registered', 'caller_wins'):
     if k in f and f[k] is not True and f[k] is not None:
       return f'{tag}: {k} = {f[k]}'
   if 'exact_type' in f and f['exact_type_expected'] and not f['exact_type']:
